@@ -153,8 +153,14 @@ def main():
             "caught_by": caught, "check_status": dict(status), "violation_keys": keys[:8],
             "history": history_for(sid),
         }
+        if demo_mut and demo_mut.group(1) == "0" and demo_repo and demo_repo.group(1) == "0":
+            # the demonstration passes with the patch applied to the current HEAD: a later repair of the repository made the change harmless
+            meta["still_breaks_property"] = False
+            meta["history"] += " | NEUTRALISED: a later fix: commit of the repository removed the mechanism the change relied on; its demonstration now passes with the patch applied, so there is nothing left to catch"
+        else:
+            meta["still_breaks_property"] = True
         json.dump(meta, open(f"{dst}/meta.json", "w"), indent=1)
-        print(sid, "caught by", caught or "NOBODY", "| demo", meta["confirmed"]["demo_on_unchanged_tree_exit"], meta["confirmed"]["demo_with_patch_exit"], "| tests", meta["confirmed"]["repository_tests_with_patch"], flush=True)
+        print(sid, "caught by", caught or ("NOBODY" if meta["still_breaks_property"] else "n/a (neutralised)"), "| demo", meta["confirmed"]["demo_on_unchanged_tree_exit"], meta["confirmed"]["demo_with_patch_exit"], "| tests", meta["confirmed"]["repository_tests_with_patch"], flush=True)
 
 
 if __name__ == "__main__":
